@@ -52,7 +52,7 @@ def chain_explorer(ctx: Ctx, **kw):
 
     def may_raise(ev: Event) -> bool:
         return any(isinstance(c, FuncInfo) and roles.fq(c) in pcs for c in ev.d['callees']) and \
-            ev.func is tw
+            roles.in_tw(ev.func)
     return ctx.explorer(inline=inl, may_raise=may_raise, max_paths=40000, **kw)
 
 
@@ -95,7 +95,7 @@ def r16_1(ctx: Ctx):
         i0 = fails[0]
         site = p.events[i0]
         # which evaluation failed?  (failure of the very first evaluation is outside the property)
-        prior_evals = [e for e in p.events[:i0] if e.kind == 'call' and e.func is tw and
+        prior_evals = [e for e in p.events[:i0] if e.kind == 'call' and roles.in_tw(e.func) and
                        any(isinstance(c, FuncInfo) and roles.fq(c) in pcs for c in e.d['callees'])]
         # the failing call itself is the last of these
         k = len(prior_evals)
@@ -110,7 +110,7 @@ def r16_1(ctx: Ctx):
                      key=f'{rid}::{sd.short}::escapes', detail={'path': p.describe(50)[-25:]})
             continue
         ctx.ok(rid, sd.short, f'objective failure at evaluation #{k} of the path is caught and Solve returns', where)
-        later = [e for e in p.events[i0:] if e.kind == 'call' and e.func is tw and
+        later = [e for e in p.events[i0:] if e.kind == 'call' and roles.in_tw(e.func) and
                  any(isinstance(c, FuncInfo) and roles.fq(c) in pcs for c in e.d['callees'])]
         ctx.check(not later, rid, sd.short, where, 'the global search does not resume after the failure',
                   'after an objective failure the global search resumes (another evaluation follows the handler): '
@@ -209,7 +209,7 @@ def r16_2_3(ctx: Ctx):
                     end = j
                     break
             trip = evs[s:end]
-            evals = [i for i, e in enumerate(trip) if e.kind == 'call' and e.func is tw and
+            evals = [i for i, e in enumerate(trip) if e.kind == 'call' and roles.in_tw(e.func) and
                      any(isinstance(c, FuncInfo) and roles.fq(c) in pcs for c in e.d['callees'])]
             if not evals:
                 continue
